@@ -43,6 +43,11 @@ def _prepare(uname, ucfg, repo, verif, build):
         from . import generators
         more = getattr(generators, gen)(repo, dst, ucfg)
         items += more.get('items', [])
+        ucfg = dict(ucfg)
+        ucfg.setdefault('_generated_harnesses', {}).update(more.get('harnesses', {}))
+        _prepare.generated = more.get('harnesses', {})
+    else:
+        _prepare.generated = {}
     return dst, items, rewrites
 
 
@@ -113,7 +118,13 @@ def run_unit(uname, ucfg, tier, repo, verif, build, log):
     res['functions'] = items + [dict(kind='api', source=s['source'], selector=s['selector'], sha=_sha_of(repo, s), name=s['selector'])
                                 for s in ucfg.get('api_under_contract', [])]
     res['rewrites'] = rewrites
-    declared = {h: c for h, c in ucfg['harnesses'].items() if tier == 'thorough' or c.get('tier', 'quick') == 'quick'}
+    allh = dict(ucfg['harnesses'])
+    allh.update(getattr(_prepare, 'generated', {}) or {})
+    exp = ucfg.get('expect_generated')
+    if exp is not None and len(getattr(_prepare, 'generated', {}) or {}) != exp:
+        res.update(status='undecided', reason=f'vacuity guard 1: generator produced {len(_prepare.generated)} harnesses, unit declares {exp}')
+        return res
+    declared = {h: c for h, c in allh.items() if tier == 'thorough' or c.get('tier', 'quick') == 'quick'}
     flags = ucfg.get('flags', ['-Z', 'function-contracts', '-Z', 'stubbing'])
     tdir = os.path.join(build, 'kani-target', uname)
     cmd = ['cargo', 'kani'] + flags + ['-Z', 'unstable-options', '--target-dir', tdir, '-j', str(ucfg.get('jobs', 12)),
